@@ -18,12 +18,13 @@ from .. import common, constrain_corr as cc, gen, scale_corr as sc
 from ..common import Result, Violation, f2h
 
 META = dict(
-    level='Lean theorems, for every c > 0 over any linear ordered field: discrete methods — every Poisson parameter, every prior-cdf argument, span fractions and maximization arguments are unchanged and the time grid scales, hence posterior means x c and variances x c^2 for ANY inside/outside/maximization recursion reading only that view; `_constrain_ages` equivariant (same exits, same forced assignments); mutational_area / mutational_timescale / piecewise rescale loop equivariant; EP edge update, full pass, propagate_prior and node moments equivariant GIVEN equivariant projection kernels (hypothesis). Partial: the projection kernels (approx.py/hypergeo.py) are a hypothesis here, piecewise_scale_posterior and the inside/outside recursions are not modelled (they are arbitrary functions of proved-invariant arguments); floating point by tolerance only. Models tied to the code bit-for-bit at Float on base and rescaled inputs; date() checked metamorphically over 16 scale factors.',
+    level='Lean theorems, for every c > 0 over any linear ordered field: discrete methods — every Poisson parameter, every prior-cdf argument, span fractions and maximization arguments are unchanged and the time grid scales, hence posterior means x c and variances x c^2 for ANY inside/outside/maximization recursion reading only that view, and the full statement for the model of a whole inside_outside run (grid, tables, recursion, mean_var, constraint); `_constrain_ages` equivariant (same exits, same forced assignments); mutational_area / mutational_timescale / piecewise rescale loop equivariant; EP edge update, full pass, propagate_prior (the penalty is a rate) and node moments equivariant GIVEN equivariant projection kernels (hypothesis); the translator-generated _damp/_rescale are proved equal to the hand models and scale-free. Partial: the projection kernels (approx.py/hypergeo.py) are a hypothesis here, piecewise_scale_posterior and the inside/outside recursions are not modelled (they are arbitrary functions of proved-invariant arguments); floating point by tolerance only. Models tied to the code bit-for-bit at Float on base and rescaled inputs; date() checked metamorphically over 16 scale factors.',
     note='Lean kernel + {propext, Classical.choice, Quot.sound}; exact arithmetic; sampled correspondence of the models; scipy pmf/cdf as uninterpreted functions; projections assumed equivariant',
     technique='degree discipline: equivariance theorems by induction over edges/iterations + bit-exact model/code correspondence + metamorphic oracle',
     ref='§3 C06',
 )
 LEAN_PROPS = ["TsdateVerif.Props.C06"]
+TRANSLATORS = ["kernels"]
 LEAN_BUILD = ["TsdateVerif.Model.Proto", "TsdateVerif.Model.Scale", "TsdateVerif.Model.Constrain"]
 ASSUMPTIONS = [
     "theorems are about exact arithmetic over an ordered field; floating-point agreement is checked with tolerances (discrete 1e-9, variational 1e-6 means / 1e-5 variances)",
@@ -47,10 +48,30 @@ def classify_raise(r):
     return f"{r['exc']}"
 
 
-def one_case(ctx, rng, res, stats, batch, checks, scales_per_case, corr=True):
-    method = str(rng.choice(["variational_gamma", "inside_outside", "maximization"]))
-    ts, info = sc.draw_ts(rng, method)
-    kw = sc.explicit_defaults(sc.draw_options(rng, ts, info, method))
+# (method, historical samples, option flavour)
+SCHEDULE = [("variational_gamma", True, None), ("inside_outside", None, None), ("maximization", None, None),
+            ("variational_gamma", False, None), ("inside_outside", None, "epochs_tp"), ("variational_gamma", True, None),
+            ("maximization", None, "epochs_tp"), ("inside_outside", None, None)]
+
+
+def pick_scales(rng, n):
+    """both extremes (absolute thresholds and unscaled constants show there), one non-power-of-two, the
+    rest random"""
+    cs = [1e-6, 1e6, float(rng.choice([3.7, 0.37, 3.141592653589793]))]
+    rest = [c for c in sc.C06_SCALES if c not in cs]
+    cs += [float(x) for x in rng.choice(rest, size=max(0, n - len(cs)), replace=False)]
+    return cs[:max(n, 3)]
+
+
+def one_case(ctx, rng, res, stats, batch, checks, scales_per_case, corr=True, idx=None):
+    if idx is None:
+        method, hist, flavour = str(rng.choice(["variational_gamma", "inside_outside", "maximization"])), None, None
+    else:
+        method, hist, flavour = SCHEDULE[idx % len(SCHEDULE)]
+    ts, info = sc.draw_ts(rng, method, hist)
+    if "historical" in info.get("fired", []):
+        stats["historical"] = stats.get("historical", 0) + 1
+    kw = sc.explicit_defaults(sc.draw_options(rng, ts, info, method, flavour))
     discrete = method != "variational_gamma"
     stats["methods"][method] = stats["methods"].get(method, 0) + 1
     for k in ("timepoints", "population_size"):
@@ -75,9 +96,7 @@ def one_case(ctx, rng, res, stats, batch, checks, scales_per_case, corr=True):
         if corr and discrete:
             checks += [(c, None) for c in sc.corr_discrete(ts, kw, rec, r0["out"][1], batch, f"base:{method}")]
     tsj = None
-    cs = [float(x) for x in rng.choice(sc.C06_SCALES, size=scales_per_case, replace=False)]
-    if not any(scale_class(c) == "nondyadic" for c in cs):
-        cs[-1] = float(rng.choice([3.7, 0.37, 3.141592653589793]))
+    cs = pick_scales(rng, scales_per_case)
     for j, c in enumerate(cs):
         ts_c = sc.scale_times_ts(ts, c)
         kw_c = sc.c06_kwargs(kw, c)
@@ -107,10 +126,22 @@ def one_case(ctx, rng, res, stats, batch, checks, scales_per_case, corr=True):
         out1 = r1["out"][0] if discrete else r1["out"]
         o1 = sc.outputs(out1)
         errs = sc.compare(base, o1, c, method)
+        f13 = None
+        if any(e > sc.field_tol(f, method) for f, e in errs.items()):
+            f13 = sc.near_tie_rescaling(ts, {k: v for k, v in kw.items() if k != "return_fit"}, ts_c,
+                                        {k: v for k, v in kw_c.items() if k != "return_fit"}, c)
+            if f13:
+                stats["f13_near_tie"] = stats.get("f13_near_tie", 0) + 1
+                res.violations.append(Violation(
+                    f"{sc.NEAR_TIE}:{method}",
+                    f"{method}: outputs at c={c!r} differ from the rescaled unscaled outputs by rel. {max(errs.values()):.3g}; with "
+                    f"rescaling_intervals=0 they agree; unrescaled posterior means have exact ties {f13['exact_ties']} / near ties "
+                    f"{f13['near_ties']} in the two runs (mutational_timescale is discontinuous at ties)", replay))
         for f, e in errs.items():
             key = f"{method}:{f}"
-            stats["max_relerr"][key] = max(stats["max_relerr"].get(key, 0.0), e if np.isfinite(e) else 1e300)
-            if e > sc.field_tol(f, method):
+            if not f13:
+                stats["max_relerr"][key] = max(stats["max_relerr"].get(key, 0.0), e if np.isfinite(e) else 1e300)
+            if e > sc.field_tol(f, method) and not f13:
                 res.violations.append(Violation(
                     f"not-equivariant:{method}:{f}",
                     f"{method}: {f} at c={c!r} differs from c x (c^2 x) the unscaled output by rel. {e:.3g} "
@@ -201,6 +232,29 @@ def rescale_piece(ctx, res, stats, batch, checks, n):
         res.nontrivial.add(common.canon_key(replay))
 
 
+def corpus(ctx, res, stats):
+    """Minimised inputs of earlier findings always run first (corpus/C06/*.json)."""
+    import json
+    for f in sorted((common.VERIF / "corpus" / "C06").glob("*.json")):
+        d = json.loads(f.read_text())
+        ts = gen.ts_from_jsonable(d["ts"])
+        kw = sc.explicit_defaults(sc.kw_from_jsonable(d["kw"]))
+        c = float.fromhex(d["c"])
+        ts_c, kw_c = sc.scale_times_ts(ts, c), sc.c06_kwargs(kw, c)
+        r0, r1 = sc.run(ts, kw), sc.run(ts_c, kw_c)
+        res.evaluations += 2
+        stats["corpus"] = stats.get("corpus", 0) + 1
+        if not (r0["ok"] and r1["ok"]):
+            continue
+        errs = sc.compare(sc.outputs(r0["out"]), sc.outputs(r1["out"]), c, kw["method"])
+        if any(e > sc.field_tol(fl, kw["method"]) for fl, e in errs.items()):
+            f13 = sc.near_tie_rescaling(ts, kw, ts_c, kw_c, c)
+            kind = f"{sc.NEAR_TIE}:{kw['method']}" if f13 else f"not-equivariant:{kw['method']}:{max(errs, key=errs.get)}"
+            res.violations.append(Violation(kind, f"corpus {f.name}: {kw['method']} outputs at c={c!r} differ by rel. "
+                                                  f"{max(errs.values()):.3g}" + (f" (near-tie pattern {f13})" if f13 else ""),
+                                            dict(kind="date", ts=d["ts"], kw=d["kw"], c=d["c"])))
+
+
 def new_stats():
     return dict(methods={}, options={}, raised={}, scales={}, max_relerr={}, f5_flip=0, hyp_inrange=0,
                 rescale_cases=0, rescale_rejected=0, rescale_reject_flip=0, changepoint_flip=0, driver_cases={})
@@ -221,16 +275,17 @@ def run(ctx):
     stats = new_stats()
     batch = sc.Batch()
     checks = []
+    corpus(ctx, res, stats)
     rng = ctx.rng(1)
-    n_cases = ctx.n(24, 400)
+    n_cases = ctx.n(24, 160)
     per = 4 if ctx.tier == "quick" else 13
     for i in range(n_cases):
-        one_case(ctx, rng, res, stats, batch, checks, per, corr=(i % 2 == 0))
-    constrain_piece(ctx, res, stats, batch, checks, ctx.n(60, 2000))
-    rescale_piece(ctx, res, stats, batch, checks, ctx.n(12, 300))
+        one_case(ctx, rng, res, stats, batch, checks, per, corr=(i % 2 == 0), idx=i)
+    constrain_piece(ctx, res, stats, batch, checks, ctx.n(60, 1500))
+    rescale_piece(ctx, res, stats, batch, checks, ctx.n(12, 200))
     finish_batch(res, stats, batch, checks)
     stats["hypotheses"] = dict(c_positive="always (scale factors of the statement)",
-                               InRange=f"{stats['hyp_inrange']} of {ctx.n(60, 2000)} constraint cases")
+                               InRange=f"{stats['hyp_inrange']} of {ctx.n(60, 1500)} constraint cases")
     res.rule = ("C: date() on msprime inputs (3-7 samples, 1-8 trees, >=5 mutations; historical samples and unphased "
                 "singletons for the variational method; scalar / piecewise population size, default / integer / user "
                 "timepoints, eps, min_branch_length, rescaling options) at c=1 and at 4 (quick) or 13 (thorough) of the 16 "
@@ -247,8 +302,8 @@ def search(ctx):
     stats = new_stats()
     batch = sc.Batch()
     rng = ctx.rng(5)
-    for _ in range(ctx.n(10, 40)):
-        one_case(ctx, rng, res, stats, batch, [], 8, corr=False)
+    for j in range(ctx.n(10, 40)):
+        one_case(ctx, rng, res, stats, batch, [], 8, corr=False, idx=j)
     return res
 
 
